@@ -75,30 +75,42 @@ def takeDigits : List Char → List Char × List Char
   | [] => ([], [])
   | c :: t => if isDigit c then let (d, r) := takeDigits t; (c :: d, r) else ([], c :: t)
 
+/-- optional minus sign -/
+def takeSign : List Char → List Char × List Char
+  | '-' :: t => (['-'], t)
+  | inp => ([], inp)
+
+/-- optional fraction: "." digits -/
+def takeFrac : List Char → List Char × List Char
+  | '.' :: t => ('.' :: (takeDigits t).1, (takeDigits t).2)
+  | r1 => ([], r1)
+
+def takeExpSign : List Char → List Char × List Char
+  | '+' :: u => (['+'], u)
+  | '-' :: u => (['-'], u)
+  | t => ([], t)
+
+/-- optional exponent: e/E, optional sign, digits -/
+def takeExp : List Char → List Char × List Char
+  | e :: t =>
+    if e = 'e' ∨ e = 'E' then
+      (e :: (takeExpSign t).1 ++ (takeDigits (takeExpSign t).2).1, (takeDigits (takeExpSign t).2).2)
+    else ([], e :: t)
+  | [] => ([], [])
+
 /-- number = [ minus ] int [ frac ] [ exp ] -/
 def parseNum (inp : List Char) : Option (List Char × List Char) :=
-  let (sign, r0) := match inp with | '-' :: t => (['-'], t) | _ => ([], inp)
-  let (ds, r1) := takeDigits r0
-  if ds = [] then none
-  else if ds.length > 1 ∧ ds.head? = some '0' then none
+  let sg := takeSign inp
+  let dg := takeDigits sg.2
+  if dg.1 = [] then none
+  else if dg.1.length > 1 ∧ dg.1.head? = some '0' then none
   else
-    let (frac, r2) : List Char × List Char :=
-      match r1 with
-      | '.' :: t => let (fd, r) := takeDigits t; ('.' :: fd, r)
-      | _ => ([], r1)
-    if frac = ['.'] then none
+    let fr := takeFrac dg.2
+    if fr.1 = ['.'] then none
     else
-      let (ex, r3) : List Char × List Char :=
-        match r2 with
-        | e :: t =>
-          if e = 'e' ∨ e = 'E' then
-            let (sg, t') := match t with | '+' :: u => (['+'], u) | '-' :: u => (['-'], u) | _ => ([], t)
-            let (ed, r) := takeDigits t'
-            (e :: sg ++ ed, r)
-          else ([], r2)
-        | [] => ([], r2)
-      if ex ≠ [] ∧ ¬ (ex.getLast?.map isDigit = some true) then none
-      else some (sign ++ ds ++ frac ++ ex, r3)
+      let ex := takeExp fr.2
+      if ex.1 ≠ [] ∧ ¬ (ex.1.getLast?.map isDigit = some true) then none
+      else some (sg.1 ++ dg.1 ++ fr.1 ++ ex.1, ex.2)
 
 def parseVal (inp : List Char) : Option (Val × List Char) :=
   match inp with
